@@ -239,7 +239,11 @@ Definition paused (c : core) (o : nat) : bool :=
 
 (** * Part 2: programs *)
 Inductive stmt :=
-| SNewSig | SNewStored | SOnCleanup
+| SNewSig | SNewStored
+| SNewItem (kind : nat)        (* raw ArenaItem::<T, S>::new_with_storage(v), [kind] naming one of the
+                                  harness' (T, S) pairs: inserted and registered with the current
+                                  owner whatever T and S are *)
+| SOnCleanup
 | SProvide (ty : nat) (v : Z) | SUse (ty : nat)
 | SChild (b : list stmt)       (* let o = Owner::new(); o.with(|| b) — the handle is retained *)
 | SEffect (b : list stmt)      (* Effect::new(move |_| { trigger.track(); b }) *)
@@ -291,7 +295,7 @@ Definition blog (s : bstate) (l : list lent) : bstate := set_core s (add_log (b_
 
 Fixpoint exec_stmt (cur : nat) (st : stmt) (s : bstate) : bstate :=
   match st with
-  | SNewSig | SNewStored =>
+  | SNewSig | SNewStored | SNewItem _ =>
       let '(k, c) := alloc cur (IVal (length (handles s))) (b_core s) in
       mkB c (effs s) (memos s) (handles s ++ [k]) (holders s) (allkeys s ++ [k]) (imms s)
   | SOnCleanup => set_core s (reg_cleanup cur (b_core s))
@@ -345,7 +349,7 @@ Inductive op :=
 | Rerun (o : nat) | Cleanup (o : nat) | DropOwner (o : nat)
 | NotifyEffect (e : nat) | NotifyMemo (m : nat) | ReadMemo (m : nat)
 | Poll (e : nat) | RunAll (picks : list nat)
-| Alloc (o : nat) (n : nat) | Dispose (h : nat)
+| Alloc (o : nat) (n : nat) | AllocItems (o : nat) (n : nat) (kind : nat) | Dispose (h : nat)
 | Pause (o : nat) | Resume (o : nat) | UseAt (o : nat) (ty : nat)
 | DisposeMemo (m : nat) | DisposeEffect (e : nat)
 | NotifyImm (i : nat) | DropImm (i : nat).
@@ -469,6 +473,11 @@ Definition step (s : bstate) (x : op) : bstate :=
   | Alloc o n =>
       match user_body s o with
       | Some _ => exec_body o (repeat SNewStored n) s
+      | None => s
+      end
+  | AllocItems o n kind =>
+      match user_body s o with
+      | Some _ => exec_body o (repeat (SNewItem kind) n) s
       | None => s
       end
   | Dispose h =>
